@@ -78,6 +78,11 @@ def execute(c):
             kw["overview_levels"] = {"none": [], "l2": [2], "l24": [2, 4]}[c["levels"]]
         if c["windowed"]:
             kw["use_windowed_writes"] = True
+        nd_kw = None
+        if c["nodata"] and c["route"] != "layers" and (c["h"] + c["w"] + c["ns"] + len(c["levels"])) % 3 == 0:
+            # the array carries one nodata value in its attributes and the caller names ANOTHER one explicitly: the explicit one is the file's
+            nd_kw = c["nodata"][0] - 3 if np.dtype(c["dtype"]).kind != "u" else c["nodata"][0] + 3
+            kw["nodata"] = nd_kw
         if c["icomp"]:
             # the intermediate compression may be switched on, named, or given as creation options
             kw["intermediate_compression"] = [True, "deflate", {"compress": "zstd", "zstd_level": 1}][(c["h"] + c["w"] + c["ns"] + len(c["dtype"])) % 3]
@@ -130,7 +135,7 @@ def execute(c):
                 r["crs_ok"] = bool(f.crs is not None and pyproj.CRS.from_wkt(f.crs.to_wkt()) == pyproj.CRS(PROJ_CRS[cr]))
             else:
                 r["crs_ok"] = bool(f.crs is not None and f.crs.to_epsg() == int(cr))
-            nd = c["nodata"][0] if c["nodata"] else None
+            nd = (nd_kw if nd_kw is not None else c["nodata"][0]) if c["nodata"] else None
             r["nodata_ok"] = bool((f.nodata is None and nd is None) or (f.nodata is not None and nd is not None and float(f.nodata) == float(nd)))
         with tifffile.TiffFile(io.BytesIO(data)) as tf:
             p0 = tf.pages[0]
